@@ -3,8 +3,8 @@
 From Coq Require Import NArith ZArith List.
 From Coq Require Extraction ExtrOcamlBasic.
 From ZV.Codec Require Import Bytes.
-From ZV.Stream Require Import DStreamModel CStreamModel StreamInst WindowModel StoreStream StreamInstDict DictUseModel.
+From ZV.Stream Require Import DStreamModel CStreamModel StreamInst WindowModel StoreStream StreamInstDict DictUseModel DictIdModel.
 Extraction Language OCaml.
 Extraction "Extract/out/c02model.ml" Rz_new Rdstep Rspec_decode Roneshot Rc_begin Rdcontinue default_dparams find_csize get_fheader
   Tk_new Tkstep Tk_hint cbound w_init w_clear w_update w_chunk Sk_new Skstep
-  Rz_new_d Rdstep_d Rspec_decode_d dict_of_bytes dd_new dd_step.
+  Rz_new_d Rdstep_d Rspec_decode_d dict_of_bytes dd_new dd_step ds_new ds_step.
